@@ -46,6 +46,8 @@ var AllowShapes = [][]string{
 	{"// @packageonly zz, zz, u"},
 	{"// @packageonly ex.com/m/d, w"},
 	{"// @packageonly zz, ex.com/m/d ,zz , ex.com/m/x/u"},
+	{"// @packageonly zz, ex.com/m/x-y.z, w"},          // a hyphen in an entry that is not the first
+	{"// @packageonly zz,ex.com/m/x_y-z.v2 ,vv,\tu"}, // hyphen, underscore, dot and digits in the middle; a tab before the last entry
 }
 
 // allowList is the reference reading of a shape: the union of all names on all lines.
@@ -77,6 +79,10 @@ func allowList(shape int) []string {
 		return []string{"ex.com/m/d", "w"}
 	case 16:
 		return []string{"zz", "ex.com/m/d", "ex.com/m/x/u"}
+	case 17:
+		return []string{"zz", "ex.com/m/x-y.z", "w"}
+	case 18:
+		return []string{"zz", "ex.com/m/x_y-z.v2", "vv", "u"}
 	}
 	return nil
 }
